@@ -155,7 +155,7 @@ pub fn pool_nonneg<F: Float>(d: usize, extra: Option<&Array2<F>>) -> Array2<F> {
     pool::<F>(d, extra).mapv(|x| if x < F::zero() { -x } else { x })
 }
 
-pub const DOCS: [&str; 8] = [
+pub const DOCS: [&str; 11] = [
     "one two three four",
     "two three four five five",
     "seven one one two",
@@ -164,9 +164,25 @@ pub const DOCS: [&str; 8] = [
     "One SIX x",
     "three three three nine",
     "caf\u{e9} na\u{ef}ve two-three one_two",
+    // mixed-case alphanumeric tokens: only matter for split expressions with cased classes /
+    // literals and for the lowercasing / case handling flags
+    "A320 b737 A320 Boeing747 x9",
+    "Flight A320 to B52 via c17 and B52",
+    "iPhone X11 vs IPHONE x11 two",
 ];
 
-pub const QUERY_DOCS: [&str; 7] = ["one two two", "five six SEVEN eight", "", "unknown words only", "a b x one", "three three nine ten ten", "caf\u{e9} two-three"];
+pub const QUERY_DOCS: [&str; 10] = [
+    "one two two",
+    "five six SEVEN eight",
+    "",
+    "unknown words only",
+    "a b x one",
+    "three three nine ten ten",
+    "caf\u{e9} two-three",
+    "A320 b737 C17 a320",
+    "B52 b52 Boeing747 BOEING747 Flight flight",
+    "X11 x11 iPhone iphone IPHONE",
+];
 
 /// function tokeniser used for the guard tests: splits on single spaces, keeps one-letter tokens
 /// and punctuation (deliberately different from the default regex `\b\w\w+\b`)
